@@ -289,20 +289,26 @@ func (t *Transaction) Insert(op *ovsdb.Operation) (ovsdb.OperationResult, *updat
 		return ovsdb.ResultFromError(err), nil
 	}
 
-	// the UUID provided for the new row cannot be the one of an existing row
-	existing, err := t.rowsFromTransactionCacheAndDatabase(op.Table, []ovsdb.Condition{
-		ovsdb.NewCondition("_uuid", ovsdb.ConditionEqual, ovsdb.UUID{GoUUID: op.UUID}),
-	})
-	if err != nil {
-		return ovsdb.ResultFromError(err), nil
+	// the UUID provided for the new row cannot be the one of an existing row,
+	// be it a row of this transaction or a row of the database that this
+	// transaction has not deleted
+	exists := false
+	if _, deleted := t.DeletedRows[op.UUID]; !deleted {
+		if tc := t.Cache.Table(op.Table); tc != nil {
+			exists = tc.HasRow(op.UUID)
+		}
+		if !exists {
+			row, err := t.Database.Get(t.DbName, op.Table, op.UUID)
+			exists = err == nil && row != nil
+		}
 	}
-	if len(existing) > 0 {
+	if exists {
 		err := ovsdb.NewConstraintViolation(fmt.Sprintf("cannot insert row with uuid %s in table %s: duplicate uuid", op.UUID, op.Table))
 		return ovsdb.ResultFromError(err), nil
 	}
 
 	update := updates.ModelUpdates{}
-	err = update.AddOperation(t.Model, op.Table, op.UUID, nil, op)
+	err := update.AddOperation(t.Model, op.Table, op.UUID, nil, op)
 	if err != nil {
 		return ovsdb.ResultFromError(err), nil
 	}
